@@ -66,3 +66,78 @@ def merge_part(res, known):
 def replay_merge():
     info = run_child(_MERGE)
     return info['failures']
+
+
+def _difffile_job(job):
+    """`nbdiff A B --out d.json` then `nbpatch A d.json -o out.ipynb` as real processes on notebooks full of text outside ASCII, in
+    the inherited locale and in a process whose locale encoding is not UTF-8: both exit 0, d.json is UTF-8/ASCII JSON equal to the
+    library diff (schema-valid, JSON round trip), out.ipynb is B"""
+    k, locale = job
+    import logging, shutil, tempfile
+    logging.disable(logging.CRITICAL)
+    import nbformat
+    from bounded import nbspace
+    from nbdime.diffing.notebooks import diff_notebooks
+    from nbdime.diff_format import validate_diff
+    a, _, _, b = nbspace.nonascii_disjoint_case(k)
+    out = []
+    d = tempfile.mkdtemp(prefix='nbdime-verif-loc-')
+    try:
+        pa, pb, pd, po = [os.path.join(d, n) for n in ('a.ipynb', 'b.ipynb', 'd.json', 'out.ipynb')]
+        for p, nb in ((pa, a), (pb, b)):
+            with open(p, 'w', encoding='utf8') as fh:
+                nbformat.write(nb, fh)
+        env = {k_: v for k_, v in os.environ.items() if not k_.startswith(('JUPYTER', 'PYTHON', 'NBDIME'))}
+        env.update(PYTHONPATH='%s:%s/stubs' % (common.REPO, common.HERE), PYTHONDONTWRITEBYTECODE='1', HOME=d, JUPYTER_CONFIG_DIR=os.path.join(d, 'none'),
+                   JUPYTER_CONFIG_PATH=os.path.join(d, 'none'))
+        if locale == 'C':
+            env.update({'LC_ALL': 'C', 'LANG': 'C', 'PYTHONUTF8': '0', 'PYTHONCOERCECLOCALE': '0'})
+        tag = 'case %d, process locale %s' % (k, locale or 'as inherited')
+        p1 = subprocess.run([sys.executable, '-m', 'nbdime.nbdiffapp', pa, pb, '--out', pd], cwd=d, env=env, capture_output=True, timeout=300)
+        if p1.returncode != 0:
+            return 1, [('difffile:nbdiff-status', 'nbdiff A B --out d.json (%s) exits with status %d: %s' % (tag, p1.returncode, p1.stderr.decode('utf8', 'replace').strip().splitlines()[-1:]), k, locale)]
+        try:
+            with open(pd, 'rb') as fh:
+                raw = fh.read()
+            written = json.loads(raw.decode('utf8'))
+        except Exception as exc:
+            return 1, [('difffile:not-json', 'the file written by nbdiff --out (%s) is not UTF-8 JSON: %s: %s' % (tag, type(exc).__name__, str(exc)[:120]), k, locale)]
+        lib = nbspace.to_plain(diff_notebooks(a, b))
+        if nbspace.canon(written) != nbspace.canon(lib):
+            out.append(('difffile:differs', 'the diff written by nbdiff --out (%s) is not the library diff of the two notebooks' % tag, k, locale))
+        try:
+            from nbdime.diff_utils import to_diffentry_dicts
+            validate_diff(to_diffentry_dicts(written))
+        except Exception as exc:
+            out.append(('difffile:invalid', 'the diff written by nbdiff --out (%s) does not validate: %s' % (tag, str(exc)[:160]), k, locale))
+        p2 = subprocess.run([sys.executable, '-m', 'nbdime.nbpatchapp', pa, pd, '-o', po], cwd=d, env=env, capture_output=True, timeout=300)
+        if p2.returncode != 0:
+            out.append(('difffile:nbpatch-status', 'nbpatch A d.json -o out.ipynb (%s) exits with status %d: %s' % (tag, p2.returncode, p2.stderr.decode('utf8', 'replace').strip().splitlines()[-1:]), k, locale))
+        else:
+            got = nbformat.read(po, as_version=4)
+            if nbspace.canon(got) != nbspace.canon(b):
+                out.append(('difffile:roundtrip', 'nbdiff --out followed by nbpatch -o (%s) does not rebuild B' % tag, k, locale))
+    finally:
+        shutil.rmtree(d, ignore_errors=True)
+    return 1, out
+
+
+def replay_difffile(k, locale):
+    return [list(f) for f in _difffile_job((k, locale))[1]]
+
+
+def difffile_part(res, kinds=None):
+    "the file interface of the diff (C01, C11) in both locales; kinds: only failure kinds with one of these prefixes are this property's business"
+    seen = set()
+    n = 0
+    for cnt, fails in common.pmap(_difffile_job, [(k, loc) for k in range(3) for loc in (None, 'C')]):
+        n += cnt
+        res.evaluations += cnt
+        for kind, text, k, locale in fails:
+            if kinds and not any(kind.startswith(p) for p in kinds):
+                continue
+            if kind in seen:
+                continue
+            seen.add(kind)
+            res.violation('%s [%s]' % (text, kind), {'replay_kind': 'call', 'module': 'checks.localecommon', 'function': 'replay_difffile', 'args': [k, locale]})
+    res.coverage['difffile_locale_runs'] = n
